@@ -97,15 +97,23 @@ def run_copies(ctx, out):
             sparse_rel = b"zz_sparse.bin"
             MiB = 1 << 20
             segs = [(0, 96 * 1024), (2 * MiB, 2 * MiB + 64 * 1024), (5 * MiB, 5 * MiB + 40000)]
-            fsutil.make_file(os.path.join(d, "src", "zz_sparse.bin"), 5 * MiB + 40000, segs, tag=k + 1, sync=True)
-            extra_total = 5 * MiB + 40000
-            bs = rng.choice([4096, 65536, U64MAX])
+            # the file ends in data, in a hole, or is shorter than one block of the default configuration and ends in a hole
+            shape = rng.choice(["ends-in-data", "ends-in-hole", "small-tail-hole", "small-all-hole"])
+            ssize = {"ends-in-data": 5 * MiB + 40000, "ends-in-hole": 7 * MiB + 123, "small-tail-hole": 262144, "small-all-hole": 102400}[shape]
+            if shape == "small-tail-hole":
+                segs = [(0, 4096)]
+            elif shape == "small-all-hole":
+                segs = []
+            fsutil.make_file(os.path.join(d, "src", "zz_sparse.bin"), ssize, segs, tag=k + 1, sync=True)
+            extra_total = ssize
+            out.count("sparse_file_" + shape)
+            bs = rng.choice([4096, 65536, 1 << 20, U64MAX])
         upd = rng.choice(["rec", "chanwrap", "chanwrap", "chan"])
         fault = None
         rules = []
         files = [(rel, n) for rel, n in trees.walk_files(tree) if n[0] == "file" and n[1] > 0]
         others = [(rel, n) for rel, n in trees.walk_files(tree) if n[0] in ("fifo", "sock", "chr", "link")]
-        if sparse_rel is not None and rng.random() < 0.8:
+        if sparse_rel is not None and rng.random() < 0.8 and not shape.startswith("small"):
             victim = os.path.join(d, "dst", "src", "zz_sparse.bin")
             vsrc = os.path.join(d, "src", "zz_sparse.bin")
             which = rng.choice(["cfr", "cfr", "lseek", "cfr-zero"])
